@@ -82,9 +82,20 @@ class World:
 
                 self._saved_defaults = S.SlurmOps.get_job_states_from_sacct_batched.__defaults__
                 S.SlurmOps.get_job_states_from_sacct_batched.__defaults__ = (kn["sacct_batch"],)
+        elif self.backend == "multi":
+            from .cluster import MultiCluster
+            from .sock import Hub, SocketProxy, TimeProxy
+
+            self.cluster = MultiCluster(self.trace, kn.get("first_id", 1000))
+            self.cluster.on_command = self._cmd_seam
+            self.cluster.after_command = self._cmd_after
+            FakePopen.cluster = self.cluster
+            self.hub = Hub()
+            SocketProxy.hub = self.hub
+            TimeProxy.clock = self.clock
         else:
             self.cluster = None
-        conf = {"backend": self.backend}
+        conf = {"backend": self.backend} if self.backend != "multi" else {}
         if self.hashing:
             conf["use_spec_hashes"] = True
         if not self.clean_logs:
@@ -103,6 +114,10 @@ class World:
     def __exit__(self, *exc):
         FS.current = None
         FakePopen.cluster = None
+        from .sock import SocketProxy, TimeProxy
+
+        SocketProxy.hub = None
+        TimeProxy.clock = None
         if getattr(self, "_saved_defaults", None) is not None:
             import gwf.backends.slurm as S
 
